@@ -170,7 +170,7 @@ def check_case(case, seed, entity_mode="random", options_override=None, want_num
                 exp = np.asarray(exp).reshape(-1)
                 tol = (2e-4 if "32" in scalar or "64" == scalar[-2:] and "complex64" == scalar else 1e-9)
                 tol = 2e-4 if scalar in ("float32", "complex64") else 1e-9
-                scale = max(np.max(np.abs(exp)), 1e-12)
+                scale = max(np.max(np.abs(exp)), 1e-3)    # inputs are O(1): below 1e-3 the comparison is absolute (tensors that vanish identically)
                 errs = [float(np.max(np.abs(Ak - exp)) / scale) for Ak in candidates]
                 err = min(errs)
                 A = candidates[int(np.argmin(errs))]
@@ -391,7 +391,7 @@ def check_expression_case(case, seed):
                 runc.call_kernel(b.kernel(kr["name"]), A, dd["w"], dd["c"], dd["x"], dd["e"], dd["p"])
                 exp = oracle.reference_expression(expr, np.asarray(points, dtype=float), cell, wvals, cvals, entity=ent).reshape(-1)
                 tol = 2e-4 if scalar in ("float32", "complex64") else 1e-9
-                scale = max(np.max(np.abs(exp)), 1e-12)
+                scale = max(np.max(np.abs(exp)), 1e-3)    # inputs are O(1): below 1e-3 the comparison is absolute (tensors that vanish identically)
                 err = float(np.max(np.abs(A - exp)) / scale) if A.shape == exp.shape else float("inf")
                 worst = max(worst, err)
                 if err > tol:
